@@ -19,7 +19,7 @@
 (* a count is taken as written between its brackets.                       *)
 (*                                                                         *)
 (* Meaning: a list of declarations in the form Trace_Parser folds into the *)
-(* name table (kind type / alias / aliasarr / aliasptr with canonical      *)
+(* name table (kind type / alias / aliasarr / aliasptr / typedecl, canonical*)
 (* abstract types), plus the constants.  Texts are TLA+ strings (TLC       *)
 (* implements Len, SubSeq and \o on them), so names come out as strings.   *)
 (* A text outside this grammar yields ok = FALSE.                          *)
@@ -250,9 +250,26 @@ Top(toks, i, st) ==
                                                   !.decls = Append(@, [kind |-> "type", names |-> names, type |-> ty])])
        ELSE IF IsKw(toks, i, {"typedef"}) /\ IsKw(toks, i + 1, {"struct", "union"}) /\ (IsP(toks, i + 2, "{") \/ IsP(toks, i + 3, "{"))
        THEN \* typedef struct [NAME] { ... } names ;     an anonymous structure takes its first name
+            \* typedef struct [NAME] { ... } *P ;  |  ... A[n] ;     a pointer / array declarator names the pointer / array type:
+            \*                                      the structure is known by its tag only, without one it stays anonymous
             LET c == Composite(toks, i + 1, st)
                 nl == NameList(toks, c.i, << >>)
-            IN IF ~c.ok \/ ~nl.ok THEN bad
+                starred == IsP(toks, c.i, "*")
+                s == IF starred THEN c.i + 1 ELSE c.i
+                hasdim == At(toks, s + 1).t = "dim"
+                fin == IF hasdim THEN s + 2 ELSE s + 1
+                isdecl == c.ok /\ (starred \/ (IsId(toks, c.i) /\ hasdim))
+            IN IF isdecl
+               THEN IF ~IsId(toks, s) \/ ~IsP(toks, fin, ";") \/ (starred /\ hasdim) THEN bad
+                    ELSE LET tagnames == IF c.type.name = "" THEN << >> ELSE << c.type.name >>
+                             ln == IF hasdim THEN DimLen(toks[s + 1].s, {}, st.consts, st.tab) ELSE [k |-> "fixed", n |-> 0]
+                             aty == IF starred THEN Stars(c.type, 1) ELSE [k |-> "arr", elem |-> c.type, len |-> ln]
+                         IN IF ln.k # "fixed" THEN bad
+                            ELSE Top(toks, fin + 1, [st EXCEPT !.tab = Bind(Bind(@, tagnames, Ty(c.type)), << toks[s].s >>, Ty(aty)),
+                                                               !.decls = Append(@, [kind |-> "typedecl", names |-> tagnames, type |-> c.type,
+                                                                                    alias |-> toks[s].s, ptr |-> starred, n |-> ln.n])])
+               ELSE
+               IF ~c.ok \/ ~nl.ok THEN bad
                ELSE LET ty == IF c.type.name = "" THEN [c.type EXCEPT !.name = nl.names[1]] ELSE c.type
                         names == Dedup(<<ty.name>> \o nl.names)
                     IN Top(toks, nl.i, [st EXCEPT !.tab = Bind(@, names, Ty(ty)),
